@@ -122,9 +122,13 @@ class Driver:
     def is_header(self, ch):
         raise NotImplementedError
 
-    def case_prefix(self, data):
+    def case_prefix(self, system):
         """Coq text of per-case oracle tables (before the byte list); default none"""
         return ''
+
+    def echo_ok(self, q, r):
+        """does reply r name the request q the way the protocol does"""
+        return True
 
     # -- streams ---------------------------------------------------------------
     def stream(self, rng, kind):
@@ -155,7 +159,7 @@ class Driver:
         """run a fresh instance on data; -> (coq term, outcomes, system)"""
         system = self.new()
         outs = feed(system, data)
-        term = '(%s %s %s [%s] %s)' % (self.ctor, self.case_prefix(data), zlist([ord(c) for c in data]),
+        term = '(%s %s %s [%s] %s)' % (self.ctor, self.case_prefix(system), zlist([ord(c) for c in data]),
                                        '; '.join(coq_outcome(o) for o in outs), self.snapshot(system))
         return term, outs, system
 
@@ -266,12 +270,202 @@ class Calmux(Driver):
         return '16 0 %d\n' % value, (replies(o) or ['?'])[-1]
 
 
+
+# ---------------------------------------------------------------------------
+# IFD
+
+def fl_term(x):
+    """Coq oracle entry for x = float(tok) (None: ValueError)"""
+    if x is None:
+        return 'None'
+    fin = math.isfinite(x)
+    integral = fin and x == int(x)
+    return '(F %s %s %s %s %s)' % (
+        '(Some %s)' % zlit(int(x)) if integral else 'None',
+        'true' if x < 0 else 'false', 'true' if x > 31.5 else 'false',
+        zlit(int(x * 2)) if fin else '0', zlist([ord(c) for c in str(x)]))
+
+
+class Ifd(Driver):
+    name = 'ifd'
+    alphabet = '?BSAI 0123456789.\n\r-+_e'
+    terminators = '\n\r'
+    maxlen = 15
+    corr_import = 'From DS Require Import Model.SmaCommon Corr.SmaIfdCorr.'
+    ctype = 'ifd_case'
+    ctor = 'Build_ifd_case'
+    modname = 'simulators.if_distributor.IFD'
+
+    def new(self):
+        import importlib
+        m = importlib.import_module(self.modname)
+        table = {}
+
+        def rec_float(tok):          # module-level name shadowing the builtin: records the oracle graph
+            try:
+                x = float(tok)
+            except ValueError:
+                table[tok] = None
+                raise
+            table[tok] = x
+            return x
+        m.float = rec_float
+        s = m.System()
+        s._sma_floats = table
+        return s
+
+    def case_prefix(self, system):
+        t = system._sma_floats
+        return '[' + '; '.join('(%s, %s)' % (zlist([ord(c) for c in k]), fl_term(v))
+                               for k, v in sorted(t.items(), key=lambda kv: kv[0])) + ']'
+
+    def is_header(self, ch):
+        return ch in '?BSAI'
+
+    def snapshot(self, s):
+        return '%s [%s]' % (zlist([ord(c) for c in s.msg]),
+                            '; '.join(zlist([ord(c) for c in ', '.join(str(x) for x in s.boards[i])])
+                                      for i in range(len(s.boards))))
+
+    def att_text(self, rng):
+        r = rng.random()
+        if r < 0.35:
+            return '%d' % rng.randrange(32)
+        if r < 0.7:
+            return rng.choice(['%d.5', '%d.0', '%d.', '%d.50'][:3]) % rng.randrange(31)
+        return rng.choice(['0.3', '12.25', '31.49', '7.9', '.7', '3.14', '0.49', '1.e1', '2_0.5'])
+
+    def valid_line(self, rng):
+        t = rng.choice('\n\n\n\r')
+        k = rng.randrange(10)
+        if k < 3:
+            return '? %d%s' % (rng.randrange(21), t)
+        if k == 3:
+            return 'B %d %d%s' % (rng.choice([1, 2]), rng.randrange(4), t)
+        if k == 4:
+            return 'I 2 %d%s' % (rng.randrange(2), t)
+        if k < 7:
+            return 'S 0 10 %d %d%s' % (rng.choice([0, 5, 2300, 9999, 123, 70]), rng.randrange(2), t)
+        return 'A %d %d %s%s' % (rng.randrange(5, 21), rng.randrange(4), self.att_text(rng), t)
+
+    def odd_line(self, rng):
+        t = rng.choice('\n\r')
+        b = rng.randrange(21)
+        return rng.choice([
+            '? 21', '? -1', '?', '? ', '? x', '? 5.0', '? 5.', '? 2.5', '? 1 2', '?? 1', '?1', '? +3', '? 0_1', '? 1_',
+            '? %d.' % b, '?  %d' % b, '?\t%d' % b, '? %d ' % b, '? 1e1', '? 9.e9', '? -0.',
+            'B %d %d' % (b, rng.randrange(4)), 'B 1 4', 'B 1 -1', 'B 1 2.', 'B 1. 2', 'B 5 2.', 'B 1', 'B 1 1 1', 'B 1 x',
+            'BB 1 1', 'B 2 3', 'B 2 0',
+            'I %d %d' % (b, rng.randrange(2)), 'I 2 2', 'I 2 -1', 'I 2 1.', 'I 2. 1', 'I 2', 'I 2 1 1', 'I 1 1', 'I 2 0.',
+            'S %d 10 50 1' % b, 'S 0 11 50 1', 'S 0 10 50 2', 'S 0 10. 50 1', 'S 0 10 50 1.', 'S 0 10 5.5 0', 'S 0 10 50 0.',
+            'S 0 10 50', 'S 0 10 50 1 1', 'S 0 10 -5 1', 'S 0. 10 7 1', 'S 0 10 1.e9 1', 'S 0 9.9 5 1', 'S 0 10 x 1',
+            'S 0 10 .5 1', 'S 0 10 5 -0',
+            'A %d %d %d' % (b, rng.randrange(4), rng.randrange(32)), 'A 5 4 1', 'A 5 -1 1', 'A 5 0 -1', 'A 5 0 32',
+            'A 5 0 31.6', 'A 5 0 -0.5', 'A 5 0 -0.', 'A 5 1. 3', 'A 5. 1 3', 'A 5 0', 'A 5 0 1 1', 'A 5 0 x', 'A 5 0 ..',
+            'A 5 0 1.2.3', 'A 5 0 1e1', 'A 5 0 1.e1', 'A 5 0 9.e9', 'A 4 0 1', 'A 21 0 1', 'A 5 3. 1.5', 'AA 5 0 1',
+            'A', 'A ', 'A  ', 'A x', 'A 5 0 0.3', 'A 20 3 31.5', 'A 5 0 31.50', 'A 5 0 +1.5', 'A 5 0 1_0.5',
+        ]) + t
+
+    def queries(self):
+        return ['? %d\n' % b for b in range(21)]
+
+    num_re = None
+
+    def wf_reply(self, r):
+        import re
+        if r in ('ack\n', 'nak\n'):
+            return True
+        if not (r.startswith('ack\n') and r.endswith('\n')):
+            return False
+        body = r[4:-1]
+        f = body.split(', ')
+        if '\n' in body or len(f) != 12:
+            return False
+        ints = [f[i] for i in (0, 1, 2, 5, 6, 7, 8, 9, 10, 11)]
+        return all(re.fullmatch(r'-?[0-9]+', x) for x in ints) and \
+            all(re.fullmatch(r'-?[0-9]+|-?[0-9.]+(e[+-][0-9]+)?|-?inf|nan', x) for x in (f[3], f[4]))
+
+    def echo_ok(self, q, r):
+        f = r[4:-1].split(', ')
+        return f[0] == f[1] == q[2:-1]
+
+    registers = ('bw', 'input', 'lo', 'att')
+    letters = dict(bw='B', input='I', lo='S', att='A')
+
+    def sample_write(self, rng, reg):
+        t = rng.choice('\n\r')
+        r = rng.random()
+        if reg == 'bw':
+            if r < 0.5:
+                b, v = rng.choice([1, 2]), rng.randrange(4)
+                return 'B %d %d%s' % (b, v, t), 'in', (b, v)
+            return rng.choice(['B 1 4', 'B 2 -1', 'B 0 1', 'B 7 2', 'B 1 2.', 'B 1', 'B 1 x', 'B 21 1', 'B 1 1 1', 'B 5 2.']) + t, 'out', None
+        if reg == 'input':
+            if r < 0.5:
+                v = rng.randrange(2)
+                return 'I 2 %d%s' % (v, t), 'in', (2, v)
+            return rng.choice(['I 2 2', 'I 1 1', 'I 0 0', 'I 2 1.', 'I 2', 'I 2 x', 'I 9 1', 'I 2 -1', 'I 2 0 0']) + t, 'out', None
+        if reg == 'lo':
+            if r < 0.5:
+                f, e = rng.choice([0, 1, 50, 2300, 9999, 777]), rng.randrange(2)
+                return 'S 0 10 %d %d%s' % (f, e, t), 'in', (f, e)
+            return rng.choice(['S 0 11 50 1', 'S 0 10 50 2', 'S 1 10 50 1', 'S 5 10 50 1', 'S 0 10 50', 'S 0 10 x 1',
+                               'S 0 10 50 1.', 'S 0 10 77 0.', 'S 0 10 50 1 1', 'S 0 9 50 1', 'S 21 10 5 1']) + t, 'out', None
+        if r < 0.6:
+            b, c = rng.randrange(5, 21), rng.randrange(4)
+            txt = self.att_text(rng)
+            return 'A %d %d %s%s' % (b, c, txt, t), 'in', (b, c, float(txt.replace('_', '')))
+        return rng.choice(['A 5 0 32', 'A 5 0 -1', 'A 5 0 31.6', 'A 5 4 1', 'A 4 0 1', 'A 0 0 1', 'A 5 0', 'A 5 0 x',
+                           'A 5 1. 3', 'A 21 0 1', 'A 5 0 -0.5', 'A 5 0 1 1', 'A 5 0 9.e9']) + t, 'out', None
+
+    def is_ack(self, outs):
+        return bool(outs) and outs[-1] == ('reply', 'ack\n')
+
+    def is_acked_write(self, reg, line, outs):
+        return ('reply', 'ack\n') in outs and self.letters[reg] in line
+
+    def status(self, system, b):
+        o = feed(system, '? %d\n' % b)
+        r = (replies(o) or ['ack\n' + ', '.join(['?'] * 12) + '\n'])[-1]
+        return r[4:-1].split(', ')
+
+    def readback(self, system, reg, value):
+        if reg == 'bw':
+            b, v = value
+            f = self.status(system, b)
+            return v, (int(f[9]) >> 3) & 3
+        if reg == 'input':
+            b, v = value
+            f = self.status(system, b)
+            return v + 1, (int(f[9]) >> 1) & 3
+        if reg == 'lo':
+            fr, e = value
+            f = self.status(system, 0)
+            return ['10', str(fr), e, str(e ^ 1), str(e)], [f[3], f[4], (int(f[9]) >> 3) & 1, f[10], f[11]]
+        b, c, x = value
+        f = self.status(system, b)
+        return x, int(f[5 + c]) / 2          # protocol encoding: half-dB steps
+
+    def classify(self, klass, args):
+        if klass == 'readback_att' and (args[5][2] * 2) != int(args[5][2] * 2):
+            return 'readback_att_offgrid'
+        if klass == 'refused_changed_lo':
+            toks = args[3].strip().split(' ')
+            if len(toks) == 5 and '.' in toks[4]:
+                return 'refused_changed_lo_float_enable'
+        return klass
+
+    witnesses = dict(c05=[
+        ('write', ['', '\n', 'att', 'A 5 0 0.3\n', 'in', (5, 0, 0.3), []]),
+        ('write', ['', '\n', 'lo', 'S 0 10 50 1.\n', 'out', None, []]),
+    ])
+
 DRIVERS = {}
 
 
 def driver(name):
     if name not in DRIVERS:
-        DRIVERS[name] = {'calmux': Calmux}[name]()
+        DRIVERS[name] = {'calmux': Calmux, 'ifd': Ifd}[name]()
     return DRIVERS[name]
 
 
@@ -407,6 +601,8 @@ def chk_query(drv, hist, term, q):
         return 'query_unanswered', 'catalogue query not answered by exactly one reply'
     if not drv.wf_reply(o[-1][1]):
         return 'query_reply_shape', 'reply to a catalogue query is not of the protocol shape'
+    if not drv.echo_ok(q, o[-1][1]):
+        return 'query_reply_echo', 'reply does not name the request it answers'
     return None
 
 
